@@ -43,7 +43,7 @@ n = len(rows)
 miss = [r for r in rows if 'not detected' in r]
 text = """## 10. Seeded changes and what catches them
 
-%d breaking changes were written by fresh sub-agents (three rounds, `a`, `b` and `c`) that saw only the text of one property and a
+%d breaking changes were written by fresh sub-agents (five rounds, `a` to `e`; `d` and `e` target C02 and C17 rule R) that saw only the text of one property and a
 scratch worktree of /repo -- nothing from /verif.  Each compiles, passes the pinned suite unedited, and fails a
 demonstration that passes on the pristine tree; I confirmed all three facts myself in a scratch worktree
 (`tools/confirm_seeded.py`) before keeping the change as `seeded/<id>/{patch.diff, demo.rs, meta.json}`.
